@@ -134,6 +134,24 @@ def run(rep, tier, seed):
                     fails.append('%s strategy on a %d-bit packet returned %s (%s bits), expected %s (%d bits)' % (strat.value, len(bits), str(out)[:80], len(out[1]) if out[0] == 'OK' else '-', want[:80], len(want)))
             line = ' '.join(['S', 'cmcompressp', stack, tb(bits), DIRC[d], 'F' if strat == MatchStrategy.FIRST else 'B'] + rules_tokens(nrs))
             b.add('select-unaligned:%s:cut%d' % (strat.value, cut), line, out, parse_model_bits, fails, dict(layer='schc', op='cmcompress', stack=stack, packet_bits=bits, rules=nrs, direction=DIRC[d], strategy=strat.value), key=(line, i))
+    # two rules that elide everything: the first by not-sent under an id one (or k) bits LONGER, the second by one-entry mappings whose
+    # index is the empty buffer (a residue of zero bits) under the shorter id: BEST must return the second, which is 1..k bits shorter
+    from core import mkmap
+    from microschc.rfc8724 import RuleFieldDescriptor as _RFD, MatchingOperator as _MO, CompressionDecompressionAction as _CDA
+    for i in range(n // 5):
+        stack, pkt, st, pd = gen_parsed(rnd, STACKS[i % len(STACKS)])
+        d = rnd.choice([DI.UP, DI.DOWN])
+        pd.direction = d
+        ra = gen_rule(rnd, pd, '0', kinds=('ns',))
+        nmap = rnd.randint(1, min(4, len(pd.fields)))
+        which = set(rnd.sample(range(len(pd.fields)), nmap))
+        fds_b = [(_RFD(f.id, f.value.length, f.position, DI.BIDIRECTIONAL, mkmap({mk(bits_of(f.value), rnd.choice([L, R])): mk('')}), _MO.MATCH_MAPPING, _CDA.MAPPING_SENT) if j in which else fd)
+                 for j, (f, fd) in enumerate(zip(pd.fields, gen_rule(rnd, pd, '1', kinds=('ns',)).field_descriptors))]
+        idb = '1' + randbits(rnd, rnd.randint(0, 5))
+        ida = '0' + randbits(rnd, len(idb) - 1 + rnd.randint(1, nmap))
+        rules = [RuleDescriptor(id=mk(ida, rnd.choice([L, R])), field_descriptors=ra.field_descriptors), RuleDescriptor(id=mk(idb, rnd.choice([L, R])), field_descriptors=fds_b)]
+        for strat in (MatchStrategy.FIRST, MatchStrategy.BEST):
+            one(b, rnd, stack, pkt, pd, rules, d, strat, 'select-zero-width-indices:%s' % strat.value)
     # large datagrams: every candidate of BEST is longer than 65535 bits
     import packets as P
     for k in range(2 if tier == 'quick' else 12):
